@@ -7,6 +7,10 @@ B = json.load(open('/root/.vp/BASELINE.json'))
 out = tempfile.mktemp(suffix='.junit.xml', dir='/var/tmp')
 cmd = B['cmd'].replace('<file>', out)
 env = dict(os.environ); env.pop('SPYNE_VERIF', None)
+if len(sys.argv) > 2 and sys.argv[1] == '--repo':
+    # run the same baseline against a scratch checkout: tools/baseline.py --repo /tmp/wt-x
+    cmd = cmd.replace('cd /repo', 'cd ' + sys.argv[2])
+    env['PYTHONPATH'] = sys.argv[2]
 p = subprocess.run(cmd, shell=True, env=env, stdout=subprocess.PIPE, stderr=subprocess.STDOUT, text=True)
 passed = set()
 for tc in ET.parse(out).getroot().iter('testcase'):
